@@ -531,6 +531,24 @@ impl NetworkTopology {
         }
     }
 
+    /// Dump the links and the demultiplexer addresses (verification hook).
+    #[cfg(feature = "verif")]
+    pub(crate) fn verif_dump(&self) -> serde_json::Value {
+        use crate::verif::coord_str;
+        let mut links = vec![];
+        for ((from, _typ), to) in self.next.iter() {
+            for (to, fragile) in to {
+                links.push(serde_json::json!([coord_str(*from), coord_str(*to), fragile]));
+            }
+        }
+        let mut addrs = vec![];
+        for (demux, (host, port)) in self.demultiplexer_addresses.iter() {
+            addrs.push(serde_json::json!({"block": demux.coord.block_id, "host": demux.coord.host_id,
+                "prev": demux.prev_block_id, "addr": format!("{host}:{port}")}));
+        }
+        serde_json::json!({"links": links, "addrs": addrs})
+    }
+
     /// Finalize the topology and start mutliplexers and demultiplexers
     pub fn finalize(&mut self) {
         // drop all the senders/receivers making sure no dangling sender keep alive their network
